@@ -9,14 +9,14 @@ stops type-checking when a fact cannot be read (`none`), when one of the facts t
 namespace Bpmn.Props.C10
 open Bpmn.Model.Boundary
 
-def cfgOf (gated once refuse share : Option Bool) : Option Cfg := do
-  let g ← gated; let o ← once; let r ← refuse; let s ← share
-  pure { gated := g, once := o, refuse := r, share := s }
+def cfgOf (gated once refuse share early : Option Bool) : Option Cfg := do
+  let g ← gated; let o ← once; let r ← refuse; let s ← share; let e ← early
+  pure { gated := g, once := o, refuse := r, share := s, early := e }
 
 /-- the facts of the current source -/
 def current : Cfg :=
   (cfgOf Bpmn.Gen.C10.eventsGatedByActive Bpmn.Gen.C10.cancellationOnce Bpmn.Gen.C10.cancelRefusedWhilePending
-    Bpmn.Gen.C10.listenersShareWaitGroup).get (by decide)
+    Bpmn.Gen.C10.listenersShareWaitGroup Bpmn.Gen.C10.activeSetBeforeNextAction).get (by decide)
 
 /-- D7 does not depend on the facts: on the current ones (as on any) the interrupting statement is false, the cancel
 cannot stop a request in flight, and C10 as a whole fails -/
@@ -34,10 +34,10 @@ theorem current_cancel_only_if_interrupting : Bpmn.Gen.C10.cancelOnlyIfInterrupt
 /-- the `cancellation` once: no matched listener is left waiting for a verdict -/
 theorem current_once :
     if current.once = true then
-      ∀ (kinds : List Bool) (s : St), Reach current kinds s → quiet s = true →
+      ∀ (kinds : List Bool) (s : St), Reach current kinds s → quiet current s = true →
         ∀ (i : Nat) (l : Listener), s.ls[i]? = some l → l.phase = .idle ∨ l.phase = .armed ∨ l.phase = .moved
     else
-      ∃ (s : St) (l : Listener), Reach current [true, true] s ∧ quiet s = true ∧ s.ls[1]? = some l ∧
+      ∃ (s : St) (l : Listener), Reach current [true, true] s ∧ quiet current s = true ∧ s.ls[1]? = some l ∧
         l.phase = .cancelling ∧ l.conts = 0 ∧ l.got = 1 ∧ l.dropped = 0 := by
   split
   · next h => exact fun kinds s hr hq i l hl => exception_progress current h kinds s hr hq i l hl
@@ -46,7 +46,7 @@ theorem current_once :
 /-- no reaction after completion: governed by the `active` gate of `harness.ConsumeEvent` -/
 theorem current_no_reaction :
     if current.gated = true then
-      ∀ (kinds : List Bool) (s : St), Reach current kinds s → quiet s = true → s.req = .done →
+      ∀ (kinds : List Bool) (s : St), Reach current kinds s → quiet current s = true → s.req = .done →
         ∀ (tr : List Label) (s' : St), run current s tr = some s' → s' = s
     else ¬ boundary_inert_after_completion current := by
   split
@@ -60,6 +60,28 @@ theorem current_wait_group :
   split
   · next h => exact C10_counterexample_armed_listener current h
   · next h => exact fun s => inert_wg_unshared current (by simpa using h) s
+
+/-- the order of the harness's two activation statements: with `active := 1` first (or without the gate) an
+interrupting event can strand the host's token before the activity ever ran; with `activity.NextAction` first (and
+the gate) the host is always requested -/
+theorem current_activation :
+    if current.early = false ∧ current.gated = true then
+      ∀ (kinds : List Bool) (s : St), Reach current kinds s → quiet current s = true →
+        s.req = .none ∨ s.req = .pending ∨ s.req = .done
+    else
+      ∃ s : St, Reach current [true] s ∧ quiet current s = true ∧ s.req = .atTask ∧ contsAt s 0 = 1 ∧
+        ∀ (tr : List Label) (s' : St), run current s tr = some s' → s'.req = .atTask ∧ s'.hreqs = 0 ∧ s'.normal = 0 := by
+  split
+  · next h => exact fun kinds s hr hq => host_always_requested current h.1 h.2 kinds s hr hq
+  · next h =>
+    apply C10_counterexample_cancel_before_request
+    cases he : current.early with
+    | true => exact Or.inl rfl
+    | false =>
+      right
+      cases hg : current.gated with
+      | false => rfl
+      | true => exact absurd ⟨he, hg⟩ h
 
 /-- C10 on the current facts: false (D7 is not governed by any extracted fact), with the partial statement where the
 once and the gate are in place -/
